@@ -21,10 +21,13 @@ type Obligation struct {
 	ExpectSat bool     `json:"expect_sat,omitempty"`
 	Bounded   string   `json:"bounded,omitempty"`
 
-	script string // full SMT-LIB script
-	model  []modelVar
+	script       string // full SMT-LIB script
+	model        []modelVar
 	regionScript string // script re-verifying the obligation outside a known-finding region
 	replayed     bool
+	sorts        *Sorts
+	oracle       string     // script evaluating the clause on concrete inputs/results (replay oracle)
+	oracleRes    []modelVar // result variables of the oracle script
 	// results
 	Status   string  `json:"status"` // discharged | failed | undecided
 	Solver   string  `json:"solver"`
@@ -255,6 +258,7 @@ func (g *Gen) oblige(kind, site, path, goal, clause string) *Obligation {
 	body := strings.Join(g.lines, "\n")
 	o.script = body + "\n(assert " + and(path, not(goal)) + ")\n"
 	o.model = g.params
+	o.sorts = g.S
 	g.obls = append(g.obls, o)
 	return o
 }
@@ -289,6 +293,9 @@ func (g *Gen) finalize() {
 		}
 		o.script = head + o.script + "(check-sat)\n"
 		o.SmtBytes = len(o.script)
+		if o.oracle != "" {
+			o.oracle = head + o.oracle + "(check-sat)\n"
+		}
 	}
 }
 
